@@ -22,6 +22,22 @@ def main(pid, tier):
     emuhist.conformance(ck, bdir, g, tier, limit_quick=4000, limit_thorough=60000, label="C17/emu",
                         pairs=600 if tier == "quick" else 20000, pair_same=emuhist.same_category)
     ck.phase("transition_cover")
+    # depth probes at the limit of the channel stack (512 values) and beyond, well nested and with a pop of a
+    # value that is not on top: the specification (MaxStack) decides where the refusal comes
+    from checks import emu_models
+
+    def E(m, a=None):
+        return {"th": 1, "m": m, "mc": "O", "a": a or [], "j": False}
+    probes = []
+    for depth in (511, 512, 513, 600):
+        ups = [E("OM[", [1 + k % 2, 1]) for k in range(depth)]
+        downs = [E("OM]", [1 + k % 2, 1]) for k in reversed(range(depth))]
+        probes.append([E("OHx", [0, 101, 7])] + ups + downs + [E("OHe")])
+        probes.append([E("OHx", [0, 101, 7])] + ups + [E("OM]", [7, 1])] + downs + [E("OHe")])
+    # (one thread only: with a second thread that never runs the trace is refused at its end anyway)
+    system = dict(emu_models.sys1({"O"}), marks=g.system["marks"])
+    emu_models.run_extra(ck, bdir, emuhist.sys_with_rank(system), probes, "C17/depth", view_tail=3)
+    ck.phase("depth_probes")
     try:
         from checks import marks_rt
         marks_rt.run(ck, bdir, tier)
